@@ -20,7 +20,7 @@ META = {
                    "column or expression is read from the current data on every access (nothing remembered per expression); every "
                    "`self.<attr>` read in the table module's classes resolves to a declared attribute; derivation methods never "
                    "mutate the source's column list or data; the checked constructor tests lengths over the column list and the index "
-                   "against the column list.",
+                   "against the column list. _select takes every requested column from the one row view with eval(item, gblmath, view) as the fallback; requested items are never matched as regular expressions.",
     "decides": "no sharing of mutable structure between source and derived table; uniform selection; attribute existence; constructor checks",
     "not_decided": "lengths and values for all tables; sharing of numpy buffers between source and views (numpy semantics)",
     "assumptions": ["numpy fancy indexing returns arrays of the index's length"],
